@@ -360,6 +360,17 @@ def h_live_reader(nprior: int, nput: int, cut: int, nk: int, ka: int, kb: int, n
     return ok
 
 
+def h_failed_put_foreign(kind: int, nother: int, first_use: bool, bufsel: int, nfail: int) -> bool:
+    """
+    a put that fails on one handle (oversize key, failing encoder after a queued put, duplicate key), then 0-3 inserts through another handle on
+    the same path, then the first handle again: every handle's listing is exactly the set of successfully put keys and each listed key is readable
+    pre: 0 <= kind <= 2 and 0 <= nother <= 3 and 0 <= bufsel <= 1 and 1 <= nfail <= 2
+    post: _
+    """
+    from harness.C04 import scn_failed_then_others
+    return scn_failed_then_others(kind, nother, first_use, bufsel, nfail)
+
+
 def h_sessions(s1: int, s2: int, s3: int, nv: int, a: int) -> bool:
     """
     Session-granularity histories over two long-lived collection handles, three sessions; each session selector encodes
@@ -442,6 +453,7 @@ def run(rep, tier):
         {"fn": "h_coll_dup", "timeout": 120},
         {"fn": "h_readonly_collection", "timeout": 60},
         {"fn": "h_live_reader", "timeout": 240},
+        {"fn": "h_failed_put_foreign", "timeout": 300},
     ] + [{"fn": "h_sessions", "timeout": 240, "split": s} for s in range(8)]
     xh.run_obligations(rep, "harness.C02", specs)
     xh.known_witness(rep, "harness.C02")
